@@ -112,6 +112,24 @@ def run(ck):
         condsite = g.site_of(loop["cond"])
         key_ok = lambda n: is_call(n, "key") and is_ref_to(skip_copies(n).get("obj"), itdecl)
         val_ok = lambda n: is_call(n, "value") and is_ref_to(skip_copies(n).get("obj"), itdecl)
+    elif loop.get("k") == "while":
+        # auto it = c.cbegin(); [const auto end = c.cend();] while (it != end) { ...; ++it; }
+        cond = skip_copies(loop.get("cond"))
+        ops = (cond.get("args") or [cond.get("lhs"), cond.get("rhs")]) if isinstance(cond, dict) and cond.get("op") == "!=" else []
+        itr = [skip_copies(o) for o in ops if isinstance(o, dict) and skip_copies(o).get("k") == "ref" and not is_call(deref_local(fn, o), ("cend", "end", "constEnd"))]
+        oke = any(is_call(deref_local(fn, o), ("cend", "end", "constEnd")) for o in ops if isinstance(o, dict))
+        itv = local_var(fn, itr[0]["decl"])[1] if len(itr) == 1 else None
+        ck.require(itv is not None, "iterator loop not recognised")
+        start = skip_copies(itv.get("init"))
+        okb = is_call(start, ("cbegin", "begin", "constBegin"))
+        cont = skip_copies(start.get("obj")) if okb else None
+        itdecl = itv["decl"]
+        steps = [n for n in walk(loop.get("body")) if (n.get("k") == "unop" and n.get("op") == "++" and is_ref_to(n.get("e"), itdecl)) or (n.get("k") == "call" and n.get("op") == "++" and n.get("args") and is_ref_to(n["args"][0], itdecl))]
+        condsite = g.site_of(loop["cond"])
+        oki = len(steps) == 1 and g.postdominated(condsite, {g.site_of(steps[0])}, keep=lambda e_: not (e_.src == condsite and e_.idx == 1)) and not any(x.get("k") in ("continue", "break", "return") for x in walk(loop.get("body")))
+        ck.ob("C13-O1", sitestr(fn, loop), True if (okb and oke and oki) else None, "the loop runs an iterator from begin to end, stepping once per iteration" if (okb and oke and oki) else "iterator loop shape not recognised", key="JsonFormatter::format|loop-shape")
+        key_ok = lambda n: is_call(n, "key") and is_ref_to(skip_copies(n).get("obj"), itdecl)
+        val_ok = lambda n: is_call(n, "value") and is_ref_to(skip_copies(n).get("obj"), itdecl)
     elif loop.get("k") == "rangefor":
         ck.ob("C13-O1", sitestr(fn, loop), None, "range-for idiom over the attribute hash is not recognised yet")
         return
